@@ -7,6 +7,7 @@ import (
 	"testing"
 
 	"verif/harness/ast"
+	"verif/harness/ev"
 	"verif/harness/gen"
 	"verif/harness/jsonx"
 	"verif/harness/ref"
@@ -367,6 +368,58 @@ func TestC04(t *testing.T) {
 	}
 	excl.ArrayAlias = rec.KnownActive("KF-array-alias", false)
 	rec.ReplayTier()
+
+	// documents at the decoder's nesting boundary: whatever can be read can be written back
+	// (-o and json()), whether the innermost container is empty or not
+	if sh, _ := ev.Shard(); sh == 0 {
+		type deepDoc struct {
+			Depth int    `json:"depth"`
+			Inner string `json:"inner"`
+			Shape string `json:"shape"`
+		}
+		// (the indented text of a document nested 10000 deep has 10^8 bytes: three documents)
+		for _, depth := range []int{100, 2000, 10000} {
+			for _, inner := range []string{"", "1", "[],{}"} {
+				if depth == 10000 && inner == "[],{}" {
+					continue
+				}
+				for _, shape := range []string{"arrays", "objects"} {
+					if depth == 10000 && shape == "objects" && inner != "1" {
+						continue
+					}
+					var doc string
+					if shape == "arrays" {
+						doc = strings.Repeat("[", depth) + inner + strings.Repeat("]", depth)
+					} else {
+						in := inner
+						if in == "" || in == "[],{}" {
+							in = "{}"
+						}
+						doc = strings.Repeat("{\"a\":", depth) + in + strings.Repeat("}", depth)
+					}
+					c := deepDoc{depth, inner, shape}
+					rec.Case(fmt.Sprintf("deep %d %q %s", depth, inner, shape), depth >= 9999, "nesting-boundary")
+					o := run.InProc("{ j = json($) } END { print j.length() > 0 }", []run.InFile{{Name: "in", Data: []byte(doc)}}, nil, run.Opts{Budget: 100_000_000, WantRoot: true})
+					if o.Class == "json" {
+						continue // the decoder refuses it: nothing to write back (C20's subject)
+					}
+					msg := ""
+					if o.Class != "ok" || string(o.Stdout) != "true\n" {
+						msg = fmt.Sprintf("json() of a document that was read: outcome %s (%s) %q", o.Class, o.Msg, clip(string(o.Stdout)))
+					} else if o.RootErr != "" || o.RootPanic != "" {
+						msg = "-o of an unmodified document that was read: " + o.RootErr + o.RootPanic
+					} else if want, err := jsonx.Parse(doc); err == nil {
+						if got, err := jsonx.Parse(o.RootJSON); err != nil || !jsonx.Equal(got, want) {
+							msg = fmt.Sprintf("-o output does not parse back to the document (%v)", err)
+						}
+					}
+					if msg != "" {
+						rec.Violation("deep-document", c, "{ j = json($) }", fmt.Sprintf("%s nested %d deep around %q: %s", shape, depth, inner, msg))
+					}
+				}
+			}
+		}
+	}
 
 	maxDepth := 4
 	if evThorough() {
